@@ -218,7 +218,7 @@ void misc_string_ops(Enumerator &E) {
                 E.cell(nm("split", "ov" + std::to_string(ov), std::string("obj=") + L(LC16[ti] * 3, 16) + ",sep=" + L(LC16[ai], 16)), b, ts);
             }
             for (unsigned fi = 0; fi < 11; fi++)
-                for (unsigned var = 0; var < 4; var++) {
+                for (unsigned var = 0; var < 8; var++) {
                     if (var && fi > 2) continue;
                     Builder b; uint32_t s = b.str(LC16[ti]); uint32_t t2 = b.str(LC16[ai]);
                     Op o; o.kind = S_FORMAT; o.a = s; o.b = t2; o.c = fi; o.d = var;
@@ -283,6 +283,27 @@ void buffer_ops(Enumerator &E) {
     }
 }
 
+void convert_ops(Enumerator &E) {
+    for (int t = 0; t < 4; t++) {
+        const uint32_t *C = (t == 1 || t == 3) ? LC12 : LC16; unsigned lim = (t == 1 || t == 3) ? 12 : 16;
+        for (unsigned target = 0; target < 5; target++)
+            for (unsigned form = 0; form < 2; form++)
+                for (unsigned mode = 0; mode < 3; mode++)
+                    for (int corrupt = 0; corrupt < 2; corrupt++)
+                        for (unsigned lat = 0; lat < (t == 0 ? 2u : 1u); lat++)
+                            for (int ai = 0; ai < 5; ai++) {
+                                if (lat && (corrupt || mode)) continue;
+                                if (mode == 2 && !corrupt) continue;
+                                Builder b; uint32_t s = b.buf(t, C[ai]);
+                                if (corrupt) { b.p.ops.back().fault = F_CORRUPT; b.p.ops.back().fc = ((C[ai] / 2) << 8) | 1; }
+                                Op o; o.kind = B_CONVERT; o.t = (uint8_t)t; o.a = s; o.b = target; o.c = form | (mode << 1) | (lat << 3) | ((ai & 1) << 4);
+                                size_t ts = b.target(o);
+                                char v[64]; std::snprintf(v, sizeof v, "t%d->%u,%s,mode%u%s%s", t, target, form ? "ptr" : "buf", mode, corrupt ? ",corrupted" : "", lat ? ",latin1" : "");
+                                E.cell(nm("convert", v, std::string("src=") + L(C[ai], lim)), b, ts);
+                            }
+    }
+}
+
 void stream_ops(Enumerator &E) {
     for (uint32_t sz : SSZ)
         for (uint32_t add : SADD) {
@@ -327,6 +348,7 @@ void enum_c19(unsigned part, unsigned parts, uint64_t from, EnumVisit visit, voi
     Enumerator E{part, parts ? parts : 1, visit, user, tot};
     E.from = from;
     buffer_ops(E);
+    convert_ops(E);
     stream_ops(E);
     text_ops(E);
     char_ops(E);
